@@ -140,6 +140,19 @@ pub fn suite_api(g: &G) -> Value {
                 r.call("multi_source", shape, || res(dijkstra::multi_source(g, w, vec![x], None, None, false, true)));
                 r.call("multi_source_target", shape, || res(dijkstra::multi_source(g, w, names.clone(), Some(x), None, false, true)));
                 r.call("all_pairs_target", shape, || res(dijkstra::all_pairs(g, w, Some(x), None, false, true)));
+                // the whole option grid: every combination takes a different path through the search code
+                for cutoff in [None, Some(0.0), Some(1.0), Some(2.0)] {
+                    for fo in [false, true] {
+                        for wp in [false, true] {
+                            r.call("single_source_opts", shape, || res(dijkstra::single_source(g, w, x, None, cutoff, fo, wp)));
+                            r.call("all_pairs_opts", shape, || res(dijkstra::all_pairs(g, w, Some(x), cutoff, fo, wp)));
+                            if let Some(s) = names.first() {
+                                r.call("single_source_opts", shape, || res(dijkstra::single_source(g, w, *s, Some(x), cutoff, fo, wp)));
+                                r.call("multi_source_opts", shape, || res(dijkstra::multi_source(g, w, vec![*s, x], Some(x), cutoff, fo, wp)));
+                            }
+                        }
+                    }
+                }
             }
             for &y in args.iter().chain(names.iter().take(1)) {
                 r.call("get_edge", shape, || res(g.get_edge(x, y)));
